@@ -2,9 +2,11 @@ package main
 
 import (
 	"bytes"
+	"github.com/ElrondNetwork/elrond-vm-common/data/esdt"
 	"math/big"
 	"sort"
 	"strconv"
+	"strings"
 
 	"verifharness/oracle"
 )
@@ -98,7 +100,35 @@ func (g *gen) transfersTable() []wop {
 func (g *gen) runTransfers() {
 	g.setupWorld(worldOpts{activation: uint32(g.r.Intn(3)), epoch: 2 + int64(g.r.Intn(3))})
 	g.standardState()
+	g.metaNodeScenario()
 	g.loop(g.transfersTable())
+}
+
+// metaNodeScenario: the node of shard 0 becomes a METACHAIN node; a metachain contract that holds a fungible token and an
+// SFT tries the three transfer functions towards another metachain address (refused on every node, this one included)
+// and towards an ordinary account; then the node is an ordinary one again.
+func (g *gen) metaNodeScenario() {
+	ma, mb := metaContract(), metaContract()
+	mb[27] = 0x21
+	if g.w.ShardOf(ma) != 0xFFFFFFFF || g.w.ShardOf(mb) != 0xFFFFFFFF {
+		return
+	}
+	tokF, tokN := g.newTokenID(""), g.newTokenID("")
+	fb, err1 := (&esdt.ESDigitalToken{Value: big.NewInt(100)}).Marshal()
+	nb, err2 := (&esdt.ESDigitalToken{Type: 1, Value: big.NewInt(5), TokenMetaData: &esdt.MetaData{Nonce: 1, Name: []byte("m"), Creator: ma, Hash: []byte("h"), URIs: [][]byte{[]byte("u")}}}).Marshal()
+	if err1 != nil || err2 != nil {
+		return
+	}
+	g.emit("selfmeta 0 on")
+	g.emitf("raw 0 %s %s %s", hx(ma), hx([]byte(oracle.TokenKey(tokF, 0))), hx(fb))
+	g.emitf("raw 0 %s %s %s", hx(ma), hx([]byte(oracle.TokenKey(tokN, 1))), hx(nb))
+	user := g.pick(g.users)
+	for _, dst := range [][]byte{mb, user} {
+		g.do(spec{shard: 0, fn: oracle.FnTransfer, caller: ma, rcv: dst, gas: bigGas, args: [][]byte{tokF, {1}}})
+		g.do(spec{shard: 0, fn: oracle.FnNFTTransfer, caller: ma, rcv: ma, gas: bigGas, args: [][]byte{tokN, {1}, {1}, dst}})
+		g.do(spec{shard: 0, fn: oracle.FnMultiTransfer, caller: ma, rcv: ma, gas: bigGas, args: [][]byte{dst, {2}, tokN, {1}, {1}, tokF, {}, {2}}})
+	}
+	g.emit("selfmeta 0 off")
 }
 
 // ---------------------------------------------------------------------------
@@ -333,6 +363,26 @@ func (g *gen) opGatedByAnyone() bool {
 	return true
 }
 
+// opWideCreate: a fresh token whose creator holds the create role and NOT the add-quantity role; creates with quantity 2
+// and with quantities wider than 64 bits whose low 64 bits are 0 or 1 (all need the add-quantity role), then quantity 1.
+func (g *gen) opWideCreate() bool {
+	tok := g.newTokenID("")
+	a := g.pick(g.accounts)
+	g.sft = append(g.sft, tok)
+	if !g.setRoles(a, tok, oracle.RoleNFTCreate) {
+		return false
+	}
+	wide := [][]byte{be(2), two64.Bytes(), two64p1.Bytes(), new(big.Int).Lsh(big.NewInt(1), 128).Bytes(),
+		new(big.Int).Add(new(big.Int).Lsh(big.NewInt(3), 64), big.NewInt(1)).Bytes(), be(1<<64 - 1)}
+	for _, k := range g.r.Perm(len(wide))[:3] {
+		args := g.createArgs(tok, 1, 1)
+		args[1] = wide[k]
+		g.do(g.user(oracle.FnNFTCreate, a, a, bigGas, args...))
+	}
+	g.do(g.user(oracle.FnNFTCreate, a, a, bigGas, g.createArgs(tok, 1, 1)...))
+	return true
+}
+
 // opPrivilegedByUser: a system-only function called by a non-system caller (must be rejected).
 func (g *gen) opPrivilegedByUser() bool {
 	fn := []string{oracle.FnSetRole, oracle.FnUnSetRole, oracle.FnFreeze, oracle.FnUnFreeze, oracle.FnWipe, oracle.FnPause, oracle.FnUnPause, oracle.FnHandOver}[g.r.Intn(8)]
@@ -483,8 +533,9 @@ func (g *gen) runAuthority() {
 		g.emit("#@ undisciplined " + hx(tok))
 	}
 	g.distribute(2 * len(g.accounts))
+	g.opWideCreate()
 	g.loop([]wop{
-		{14, g.opRoleSubset(wild)}, {6, g.opUnsetRoles(wild)}, {30, g.opGatedByAnyone}, {12, g.opPrivilegedByUser},
+		{14, g.opRoleSubset(wild)}, {6, g.opUnsetRoles(wild)}, {30, g.opGatedByAnyone}, {12, g.opPrivilegedByUser}, {3, g.opWideCreate},
 		{6, g.opHandOver}, {10, g.opAccountFns}, {8, g.opSKVProtected}, {4, g.opNFTTransfer}, {3, g.opTransfer}, {5, g.lateNetwork},
 	})
 }
@@ -681,7 +732,28 @@ func (g *gen) opGasWindow() bool {
 func (g *gen) opGasmapChange() bool {
 	target := "*"
 	next := g.primeSchedule()
-	switch g.r.Intn(8) {
+	switch g.r.Intn(11) {
+	case 8, 9: // an accepted change of ONE section only: the other section's prices stay exactly what they are
+		keep := "BuiltInCost."
+		if g.r.Intn(3) == 0 {
+			keep = "BaseOperationCost."
+		}
+		if len(g.gas) > 0 {
+			for k, v := range g.gas {
+				if strings.HasPrefix(k, keep) {
+					next[k] = v
+				}
+			}
+			g.gas = next
+		} else {
+			g.gas = next
+		}
+	case 10: // the same schedule again (accepted, nothing changes)
+		if len(g.gas) > 0 {
+			next = g.gas
+		} else {
+			g.gas = next
+		}
 	case 0: // zero entry
 		next["BuiltInCost."+builtInCostNames[g.r.Intn(len(builtInCostNames))]] = 0
 	case 1:
@@ -1155,7 +1227,30 @@ func (g *gen) runAdversarial() {
 		g.do(sp)
 		return true
 	}
-	g.loop([]wop{{54, g.opAdversarial}, {18, g.opSemiValid}, {4, opRoles}, {6, g.opAlias}, {3, g.opAliasTokens}, {4, g.opMulti}, {3, g.opNFTTransfer}, {3, g.opTransfer}, {8, g.lateNetwork}, {3, g.opThinSecondLeg}})
+	// empty list elements: an NFT created with EMPTY attributes whose last URI is empty, an empty URI added to an NFT
+	// without attributes, an empty role set - the encoder must cope with zero-length elements of repeated fields
+	opEmptyElements := func() bool {
+		toks := append(append([][]byte{}, g.sft...), g.nft...)
+		tok := g.pick(toks)
+		a := g.creatorOf(tok)
+		if a == nil {
+			return false
+		}
+		args := g.createArgs(tok, 1, 2)
+		args[5] = []byte{}
+		args[len(args)-1] = []byte{}
+		if g.r.Intn(2) == 0 {
+			args[len(args)-2] = []byte{}
+		}
+		r := g.do(g.user(oracle.FnNFTCreate, a, a, bigGas, args...))
+		if isOK(r) && len(r.Out.ReturnData) == 1 && has(g.rolesOf(a, tok), oracle.RoleNFTAddURI) {
+			g.do(g.user(oracle.FnNFTAddURI, a, a, bigGas, tok, r.Out.ReturnData[0], []byte{}))
+			g.do(g.user(oracle.FnNFTAddURI, a, a, bigGas, tok, r.Out.ReturnData[0], []byte("u"), []byte{}))
+		}
+		g.do(g.sys(oracle.FnSetRole, g.pick(g.accounts), tok, []byte{}))
+		return true
+	}
+	g.loop([]wop{{54, g.opAdversarial}, {18, g.opSemiValid}, {4, opRoles}, {6, g.opAlias}, {3, g.opAliasTokens}, {4, g.opMulti}, {3, g.opNFTTransfer}, {3, g.opTransfer}, {8, g.lateNetwork}, {3, g.opThinSecondLeg}, {3, opEmptyElements}})
 }
 
 // ---------------------------------------------------------------------------
